@@ -129,7 +129,17 @@ func ClassProgram(g *G) *ClassCase {
 	}
 	var gox, gostruct, gomethods strings.Builder
 	types := "type point struct {\n\tx, y int\n}\n\ntype base struct {\n\tid int\n}\n"
-	gox.WriteString("import \"fmt\"\n\nvar (\n")
+	// declarations that may precede the var block of a class file: imports, constants, types
+	typesInClass := g.Chance(50, "types-in-classfile")
+	constInClass := g.Chance(40, "const-in-classfile")
+	gox.WriteString("import \"fmt\"\n\n")
+	if constInClass {
+		gox.WriteString("const classK = 3\n\n")
+	}
+	if typesInClass {
+		gox.WriteString(types + "\n")
+	}
+	gox.WriteString("var (\n")
 	fmt.Fprintf(&gostruct, "type %s struct {\n", name)
 	cc := &ClassCase{Name: name}
 	for _, f := range fields {
@@ -196,8 +206,17 @@ func ClassProgram(g *G) *ClassCase {
 	} else {
 		use.WriteString("\tfmt.Printf(\"%+v\\n\", *c)\n\tfmt.Printf(\"%+v\\n\", z)\n")
 	}
-	mainSrc := "import \"fmt\"\n\n" + types + "\nfunc main() {\n" + use.String() + "}\n"
+	mainTypes := types
+	if typesInClass {
+		mainTypes = ""
+		cc.Labels = append(cc.Labels, "types-declared-in-classfile")
+	}
+	mainSrc := "import \"fmt\"\n\n" + mainTypes + "\nfunc main() {\n" + use.String() + "}\n"
 	cc.XFiles = map[string]string{name + ".gox": gox.String(), "main.xgo": mainSrc}
+	if constInClass {
+		types = "const classK = 3\n\n" + types
+		cc.Labels = append(cc.Labels, "const-declared-in-classfile")
+	}
 	cc.Go = "package main\n\nimport \"fmt\"\n\nvar _ = fmt.Sprint\n\n" + types + "\n" + gostruct.String() + "\n" + gomethods.String() + "func main() {\n" + use.String() + "}\n"
 	return cc
 }
